@@ -92,6 +92,16 @@ class SimApp(BaseApplication):
         s.ev(t.proc.name if t else "?", "load_config", (src.get("workers"), src.get("proc_name")))
         w.config_loads.append((t.proc.pid if t else None, src.get("workers"), src.get("proc_name")))
 
+    def wsgi(self):
+        # the application object is shared by the clones of one simulated server (fork = re-entry on a deep copy that shares cfg/app/log);
+        # a real worker process has its own copy and, without preload_app, imports the application itself: never cache across processes
+        t = current_task()
+        pid = t.proc.pid if t is not None else None
+        if getattr(self, "_loaded_in", None) != pid or self.callable is None:
+            self.callable = self.load()
+            self._loaded_in = pid
+        return self.callable
+
     def load(self):
         w = self.world
         t = current_task()
